@@ -340,6 +340,33 @@ class Unsupported(Exception):
     pass
 
 
+STR_TRANSFORMS = ('strip', 'lstrip', 'rstrip', 'lower', 'upper', 'title', 'capitalize', 'swapcase', 'casefold',
+                  'replace', 'expandtabs', 'translate', 'split', 'rsplit', 'splitlines', 'zfill', 'center', 'ljust',
+                  'rjust', 'encode', 'decode', 'format', 'join', 'partition', 'rpartition')
+
+
+def transforms_in(t):
+    """names of string methods applied to parse values inside term t"""
+    out = []
+    seen = set()
+
+    def walk(x):
+        if id(x) in seen:
+            return
+        seen.add(id(x))
+        if isinstance(x, Opaque) and isinstance(x.text, str) and x.text.startswith('str.'):
+            out.append(x.text[4:])
+        for k in ('parts', 'items'):
+            for y in getattr(x, k, None) or []:
+                walk(y)
+        for k in ('a', 'b', 't', 'test', 'src'):
+            y = getattr(x, k, None)
+            if y is not None and not isinstance(y, (str, int, bool)):
+                walk(y)
+    walk(t)
+    return out
+
+
 class ActionEval(object):
     """evaluate one p_* function for one alternative"""
 
@@ -420,6 +447,13 @@ class ActionEval(object):
                     self.p0 = p0_a
                 else:
                     self.p0 = Cond(t, p0_a or NONE, p0_b or NONE)
+            return
+        if isinstance(st, ast.For) and isinstance(st.iter, ast.Tuple) and isinstance(st.target, ast.Name) and \
+                not st.orelse and not any(isinstance(x, (ast.Break, ast.Continue)) for s in st.body for x in ast.walk(s)):
+            # a loop over a literal tuple of values: unrolled
+            for item in st.iter.elts:
+                self.env[st.target.id] = self.ev(item)
+                self.block(st.body)
             return
         if isinstance(st, ast.For):
             # p_importPart: builds a dict from a list of pairs
@@ -561,6 +595,9 @@ class ActionEval(object):
                 return Const(len(self.rhs) + 1)
             if f == 'isinstance' and len(e.args) == 2:
                 return IsInst(self.ev(e.args[0]), norm(e.args[1]))
+            if isinstance(e.func, ast.Attribute) and e.func.attr in STR_TRANSFORMS:
+                # a string method applied to a parse value: the value is no longer what was written
+                return Opaque('str.%s' % e.func.attr, [self.ev(e.func.value)])
             raise Unsupported('call %s' % f)
         if isinstance(e, ast.Compare) and len(e.ops) == 1:
             a, b = self.ev(e.left), self.ev(e.comparators[0])
